@@ -174,6 +174,14 @@ class ExtSession:
                 else:
                     sig = hext.OpDefSig(tys.PolyFuncType(params, ft), binary=ch.coin(1, 6, "binary-too"))
             misc = ch.pick([{}, {"k": 1}, {"nested": {"a": [1, None]}, "s": "né"}], "misc")
+            if ch.coin(1, 8, "misc-deeply-nested"):
+                # size class: free-form payloads nest as deep as their author likes
+                import copy
+                deep = ch.pick([7, "leaf", [1, {"x": None}], {}], "misc-leaf")
+                for lvl in range(4 + ch.draw(12, "misc-depth")):
+                    deep = {"d": deep} if (lvl + ch.draw(2, "misc-kind")) % 2 else [deep, lvl]
+                misc = dict(copy.deepcopy(misc), deep=deep)
+                ctx.probe("misc_nested_6_levels_or_more")
             od = hext.OpDef(name, sig, ch.pick(["", "an op", 'q"\\'], "descr"), dict(misc))
             r = e.add_op_def(od)
             ctx.ev(i, "add_op_def", {"ext": e.name, "name": name, "kind": kind, "params": len(params), "re-add": bool(reuse)})
